@@ -29,6 +29,7 @@ class Mode(LogMixin):
     __slots__ = ["machine", "config", "name", "path", "priority", "_active", "_starting", "_mode_start_wait_queue",
                  "stop_methods", "start_callback", "stop_callbacks", "event_handlers", "switch_handlers",
                  "mode_stop_kwargs", "mode_devices", "start_event_kwargs", "stopping", "delay", "player",
+                 "_start_completing", "_stop_after_start",
                  "auto_stop_on_ball_end", "restart_on_next_ball", "asset_paths"]
 
     # pylint: disable-msg=too-many-arguments
@@ -62,6 +63,8 @@ class Mode(LogMixin):
         self.mode_devices = set()               # type: Set[ModeDevice]
         self.start_event_kwargs = {}            # type: Dict[str, Any]
         self.stopping = False
+        self._start_completing = False          # mode_<name>_started is posted but mode_start() did not run yet
+        self._stop_after_start = None           # type: Optional[Dict[str, Any]]
 
         self.delay = DelayManager(self.machine)
         '''DelayManager instance for delays in this mode. Note that all delays
@@ -248,6 +251,7 @@ class Mode(LogMixin):
 
         self.active = True
         self._starting = False
+        self._start_completing = True
 
         for event_name in self.config['mode']['events_when_started']:
             self.machine.events.post(event_name)
@@ -275,6 +279,13 @@ class Mode(LogMixin):
 
         self.debug_log('Mode Start process complete.')
 
+        self._start_completing = False
+        if self._stop_after_start is not None:
+            # a stop was requested while the start was still completing
+            stop_kwargs = self._stop_after_start
+            self._stop_after_start = None
+            self.stop(**stop_kwargs)
+
     def stop(self, callback: Any = None, **kwargs) -> bool:
         """Stop this mode.
 
@@ -301,6 +312,13 @@ class Mode(LogMixin):
         # do not stop twice. only register callback in that case
         if self.stopping:
             # mode is still running
+            return True
+
+        if self._start_completing:
+            # mode_start() has not run yet. stop as soon as the start is complete so that mode_start() and
+            # mode_stop() are called in order and nothing gets registered after the clean-up
+            if self._stop_after_start is None:
+                self._stop_after_start = kwargs
             return True
 
         self.machine.events.post('mode_' + self.name + '_will_stop')
